@@ -114,6 +114,20 @@ fn run_sequence_inner(codes: &[usize], invalid: bool) -> Outcome {
     } else {
         v.map(|x| x + 1)
     };
+    // Before the sequence starts an observer of the same node has lived and died (subscribed,
+    // stabilised, dropped, unlinked): its token is stale for the rest of the run. Tokens are plain
+    // data that outlive their observer, so presenting this one later must never touch an observer
+    // created afterwards (which may well live in the same allocation).
+    // (several of them, so that whatever else is allocated in between, the observers below are
+    // likely to live where one of them did)
+    let stale: Vec<incremental::SubscriptionToken> = {
+        let olds: Vec<_> = (0..6).map(|_| n.observe()).collect();
+        let toks = olds.iter().map(|o| o.subscribe(|_| ())).collect();
+        st.stabilise();
+        drop(olds);
+        st.stabilise();
+        toks
+    };
     let log: Rc<RefCell<Vec<(usize, Update<i64>)>>> = Rc::new(RefCell::new(vec![]));
     let mut next_sub = 0usize;
     let mut value_at_last_stab: Option<i64> = None;
@@ -194,6 +208,12 @@ fn run_sequence_inner(codes: &[usize], invalid: bool) -> Outcome {
                 if r != Err(ObserverError::Mismatch) {
                     bad!("step {step} {:?}: unsubscribing another observer's token returned {:?}, expected Err(Mismatch)", a, r);
                 }
+                for tok in &stale {
+                    let r = h.unsubscribe(*tok);
+                    if r != Err(ObserverError::Mismatch) {
+                        bad!("step {step} {:?}: unsubscribing the token of an observer that died before this one was created returned {:?}, expected Err(Mismatch)", a, r);
+                    }
+                }
             }
             Act::StateUnsub(x) => {
                 if !slots[x].exists {
@@ -212,6 +232,11 @@ fn run_sequence_inner(codes: &[usize], invalid: bool) -> Outcome {
             Act::Write => {
                 cur += 1;
                 v.set(cur);
+                // silent no-op: its observer is long gone (the subscriptions of the live observers
+                // keep being delivered, which the next stabilise checks)
+                for tok in &stale {
+                    st.unsubscribe(*tok);
+                }
             }
             Act::Stabilise => {
                 log.borrow_mut().clear();
